@@ -23,7 +23,7 @@ RULE = ('one case = (position in {first, after PASS, after FAIL, in subtest, in 
         'repeat_on_timeout, stop_on_measurement_fail, stop_on_first_failure}, run_if in '
         '{none,true,false,raises, stateful per evaluation}, measurement in {none,pass,fail,marginal,unset +- '
         'allow_unset}, diagnosers in {none,pass,failure,raises,raises+pass,two, always_fail handing '
-        'back one diagnosis / a list / a generator}); phase under test optionally wrapped by @monitors); a reduced '
+        'back one diagnosis / a list / a generator}); phase under test optionally wrapped by @monitors, options optionally given by two PhaseOptions layers); a reduced '
         'core product is enumerated completely and the full product is sampled; distinct = '
         'distinct case; non-trivial = at least one invocation or record of the phase under '
         'test was judged')
